@@ -21,7 +21,7 @@ CHECKS = {
                 text="Tagged user tables make every batch row decode to the original row of each of its parts; TLC checks row alignment, shuffled-index conformance, "
                      "per-key parameter sources (table over range, both table shapes) and multi-network loaders (incl. differently ordered user dictionaries) for every table size <= 8 and batch size; loader constructor contracts (Contracts.tla).",
                 note="tables are crafted (distinct tagged floats); PRNG sampled", ref="3.2 C15"),
-    "C16": dict(cat="model_checking", tech="TLC model checking of Rar.tla / RarStore.tla + trace validation (Trace_Rar.tla) of generators driven directly and through jinns.solve",
+    "C16": dict(cat="model_checking", tech="TLC model checking of Rar.tla / RarStore.tla + Apalache inductive invariant of ScheduleInd.tla (unbounded schedule) + trace validation (Trace_Rar.tla) of generators driven directly and through jinns.solve",
                 text="All schedules (start, every), capacities and per-axis sizes up to the bounds are model-checked (steps exactly at start+k*every while there is room, "
                      "active count = nstart + J*sel per axis, never beyond the store); every iteration of the real ODE/stationary/non-stationary generators, driven in solver "
                      "order and end-to-end through solve (hooks H1/H2), must satisfy the same schedule and count clauses until the store is full; chained training calls on the returned generator (Restart action of Rar.tla, "
